@@ -26,14 +26,16 @@ def cases(tier):
         for dims in itertools.product([2, 3] if (q or d == 4) else [2, 3, 4], repeat=d):
             for m in ((3, 4, 5, 6) if q else (3, 4, 5, 6, 8, 10)):
                 for fam, thr in (('generic', 0), ('generic', 1e-10), ('lowrank2', 1e-10), ('lowrank3', 1e-10), ('smalleig', 1e-2), ('smalleig', 1e-10),
-                                 ('impulses', 0), ('impulses', 1e-10), ('nearcut', 1e-3), ('nearcut', 1e-6)):
+                                 ('impulses', 0), ('impulses', 1e-10), ('nearcut', 1e-3), ('nearcut', 1e-6), ('coarsecut', 0.1), ('rank1bond', 1e-10), ('rank1bond', 0)):
                     for rep in ('ttsvd', 'over', 'split', 'orthod'):
                         for fl in ('TT', 'FT', 'TF', 'FF'):
                             if rep in ('over', 'split', 'orthod') and fl != 'TT':
                                 continue
                             if rep == 'split' and thr == 0:
                                 continue
-                            if fam == 'nearcut' and rep != 'ttsvd':
+                            if fam == 'rank1bond' and (rep != 'ttsvd' or d < 2):
+                                continue
+                            if fam in ('nearcut', 'coarsecut') and rep != 'ttsvd':
                                 continue      # the cut sits just below a singular value: only the representation whose spatial cores are orthonormal
                             if rep == 'orthod' and thr > 1e-6:
                                 continue      # a coarse cut also acts on the spatial bonds, whose spectra depend on the gauge
@@ -57,6 +59,21 @@ def make_data(rng, dims, m, fam, thr=0):
             i_ = int(np.argmax(np.abs(X[:, j])))
             Y[i_, j] = X[i_, j] * lam[j % k]
         return X, Y
+    if fam == 'coarsecut':
+        # singular values 1, .6, .3, .05, .03 and a relative cut of 0.1 that discards two directions which are far from negligible
+        k = min(N, m, 5)
+        U = np.linalg.qr(rng.standard_normal((N, k)))[0]; V = np.linalg.qr(rng.standard_normal((m, k)))[0]
+        sv = np.array([1.0, 0.6, 0.3, 0.05, 0.03][:k])
+        X = (U * sv) @ V.T
+        A = rng.standard_normal((N, N)) / np.sqrt(N)
+        return X, A @ X
+    if fam == 'rank1bond':
+        # x[i, j.., t] = a[i] * z[j.., t]: a bond of rank one between the first two spatial cores, first factor of norm 3
+        n1 = dims[0]; rest = N // n1
+        a = rng.standard_normal(n1); a = 3.0 * a / np.linalg.norm(a)
+        Z = rng.standard_normal((rest, m + 1))
+        Zx, Zy = Z[:, :-1], Z[:, 1:]
+        return np.kron(a[:, None], Zx), np.kron(a[:, None], Zy)
     if fam == 'nearcut':
         # singular values 1, .95, .9, .85 and one only 1.5 times above the relative cut
         k = min(N, m, 5)
@@ -107,6 +124,20 @@ def run_case(case, seed):
     X, Y = make_data(rng, dims, m, case['fam'], thr)
     shape = dims + [m] + [1] * (d + 1)
     x = TT(X.reshape(shape)); y = TT(Y.reshape(shape))
+    if case['fam'] == 'rank1bond':
+        # keep the factorised form (first core = a, not normalised): build the rest by TT-SVD and prepend the rank-one core
+        n1 = dims[0]
+        def fact(Mx):
+            # Mx = kron(a_true, Z): recover a_true up to scale from the first column block, keep its norm 3
+            blk = Mx.reshape(n1, -1, Mx.shape[1])
+            j0 = int(np.argmax(np.abs(blk[:, 0, 0])))
+            avec = blk[:, 0, 0] / blk[j0, 0, 0]
+            Zm = blk[j0] / 1.0
+            scale = 3.0 / np.linalg.norm(avec)
+            avec = avec * scale; Zm = Zm / scale
+            rest = TT(Zm.reshape(dims[1:] + [Mx.shape[1]] + [1] * d))
+            return TT([avec.reshape(1, n1, 1, 1)] + [c_.copy() for c_ in rest.cores])
+        x = fact(X); y = fact(Y)
     if case['rep'] == 'over':
         x = x + tt.zeros(dims + [m], [1] * (d + 1), 1); y = y + tt.zeros(dims + [m], [1] * (d + 1), 1)
     if case['rep'] == 'split':
@@ -140,6 +171,8 @@ def run_case(case, seed):
     cut = thr if thr else 1e-13
     if case['fam'] == 'nearcut':
         nogap = False
+    elif case['fam'] == 'coarsecut':
+        nogap = bool(np.any((rel > cut / 1.8) & (rel < cut * 1.8)))
     elif thr >= 1e-6:
         nogap = np.any((rel > cut / 5) & (rel < cut * 5))          # a coarse cut: singular values within a factor 5 of it
     else:
